@@ -2,6 +2,7 @@ package linter
 
 import (
 	"fmt"
+	"slices"
 	"strings"
 
 	"github.com/ysugimoto/falco/v2/ast"
@@ -325,7 +326,8 @@ func (l *Linter) lintSwitchStatement(stmt *ast.SwitchStatement, ctx *context.Con
 
 func (l *Linter) lintRestartStatement(stmt *ast.RestartStatement, ctx *context.Context) types.Type {
 	// restart statement enables in RECV, HIT, FETCH, ERROR and DELIVER scope
-	if ctx.Mode()&(context.RECV|context.HIT|context.FETCH|context.ERROR|context.DELIVER) == 0 {
+	// (a subroutine used in several scopes must be allowed to in every one of them)
+	if ctx.Mode()&^(context.RECV|context.HIT|context.FETCH|context.ERROR|context.DELIVER) != 0 {
 		err := &LintError{
 			Severity: ERROR,
 			Token:    stmt.GetMeta().Token,
@@ -461,7 +463,8 @@ func (l *Linter) lintCallStatement(stmt *ast.CallStatement, ctx *context.Context
 
 func (l *Linter) lintErrorStatement(stmt *ast.ErrorStatement, ctx *context.Context) types.Type {
 	// error statement could use in RECV, HIT, MISS, PASS, and FETCH.
-	if ctx.Mode()&(context.RECV|context.HIT|context.MISS|context.PASS|context.FETCH) == 0 {
+	// (a subroutine used in several scopes must be allowed to in every one of them)
+	if ctx.Mode()&^(context.RECV|context.HIT|context.MISS|context.PASS|context.FETCH) != 0 {
 		err := &LintError{
 			Severity: ERROR,
 			Token:    stmt.GetMeta().Token,
@@ -568,36 +571,47 @@ func (l *Linter) lintReturnStatement(stmt *ast.ReturnStatement, ctx *context.Con
 
 	// legal return actions are different in subroutine.
 	// https://developer.fastly.com/learning/vcl/using/#the-vcl-request-lifecycle
+	// A subroutine used in several scopes may return only what every one of them allows.
 	expects := make([]string, 0, 3)
-
-	switch ctx.Mode() {
-	case context.RECV:
+	first := true
+	for _, sc := range []struct {
+		scope   int
+		actions []string
+	}{
 		// https://developer.fastly.com/reference/vcl/subroutines/recv/
-		expects = append(expects, "lookup", "pass", "error", "restart")
-	case context.HASH:
+		{context.RECV, []string{"lookup", "pass", "error", "restart"}},
 		// https://developer.fastly.com/reference/vcl/subroutines/hash/
-		expects = append(expects, "hash")
-	case context.HIT:
+		{context.HASH, []string{"hash"}},
 		// https://developer.fastly.com/reference/vcl/subroutines/hit/
-		expects = append(expects, "deliver", "pass", "error", "restart")
-	case context.MISS:
+		{context.HIT, []string{"deliver", "pass", "error", "restart"}},
 		// https://developer.fastly.com/reference/vcl/subroutines/miss/
-		expects = append(expects, "fetch", "deliver_stale", "pass", "error")
-	case context.PASS:
+		{context.MISS, []string{"fetch", "deliver_stale", "pass", "error"}},
 		// https://developer.fastly.com/reference/vcl/subroutines/pass/
-		expects = append(expects, "pass")
-	case context.FETCH:
+		{context.PASS, []string{"pass"}},
 		// https://developer.fastly.com/reference/vcl/subroutines/fetch/
-		expects = append(expects, "deliver", "deliver_stale", "hit_for_pass", "pass", "error", "restart")
-	case context.ERROR:
+		{context.FETCH, []string{"deliver", "deliver_stale", "hit_for_pass", "pass", "error", "restart"}},
 		// https://developer.fastly.com/reference/vcl/subroutines/error/
-		expects = append(expects, "deliver", "deliver_stale", "restart")
-	case context.DELIVER:
+		{context.ERROR, []string{"deliver", "deliver_stale", "restart"}},
 		// https://developer.fastly.com/reference/vcl/subroutines/deliver/
-		expects = append(expects, "deliver", "restart")
-	case context.LOG:
+		{context.DELIVER, []string{"deliver", "restart"}},
 		// https://developer.fastly.com/reference/vcl/subroutines/log/
-		expects = append(expects, "deliver")
+		{context.LOG, []string{"deliver"}},
+	} {
+		if ctx.Mode()&sc.scope == 0 {
+			continue
+		}
+		if first {
+			expects = append(expects, sc.actions...)
+			first = false
+			continue
+		}
+		common := expects[:0]
+		for _, a := range expects {
+			if slices.Contains(sc.actions, a) {
+				common = append(common, a)
+			}
+		}
+		expects = common
 	}
 
 	// If return statement does not have arguemnt, but Fastly requires next state in state-machine method like "vcl_recv"
@@ -623,7 +637,7 @@ func (l *Linter) lintReturnStatement(stmt *ast.ReturnStatement, ctx *context.Con
 
 func (l *Linter) lintSyntheticStatement(stmt *ast.SyntheticStatement, ctx *context.Context) types.Type {
 	// synthetic statement only available in ERROR.
-	if ctx.Mode()&(context.ERROR) == 0 {
+	if ctx.Mode()&^(context.ERROR) != 0 {
 		err := &LintError{
 			Severity: ERROR,
 			Token:    stmt.GetMeta().Token,
@@ -696,7 +710,7 @@ func (l *Linter) lintIdent(exp *ast.Ident, ctx *context.Context) types.Type {
 
 func (l *Linter) lintSyntheticBase64Statement(stmt *ast.SyntheticBase64Statement, ctx *context.Context) types.Type {
 	// synthetic.base64 is similer to synthetic statement, but expression is base64 encoded.
-	if ctx.Mode()&(context.ERROR) == 0 {
+	if ctx.Mode()&^(context.ERROR) != 0 {
 		err := &LintError{
 			Severity: ERROR,
 			Token:    stmt.GetMeta().Token,
